@@ -154,12 +154,13 @@ resp0_ctx_send(void *arg, nni_aio *aio)
 	msg = nni_aio_get_msg(aio);
 	nni_msg_header_clear(msg);
 
+	nni_mtx_lock(&s->mtx);
 	if (ctx == &s->ctx) {
 		// We can't send anymore, because only one send per request.
+		// (Under the lock: raise and clear of a pollable must not
+		// run concurrently with each other.)
 		nni_pollable_clear(&s->writable);
 	}
-
-	nni_mtx_lock(&s->mtx);
 	if (!nni_aio_start(aio, resp0_ctx_cancel_send, ctx)) {
 		nni_mtx_unlock(&s->mtx);
 		return;
